@@ -177,11 +177,14 @@ def run_case(case):
         snap_before = clicorr.snapshot(cwd)
         rc, out, err = vlib.run_gopatch(["-p", os.path.join(root, "p.patch"), "-v"] + real_args, cwd)
         snap_after = clicorr.snapshot(cwd)
+        # a -v line names the file it is about; its wording is free: attribute each line to the longest path of the tree it contains
+        known = sorted((os.path.join(d0, fn) for d0, _, fns in os.walk(cwd) for fn in fns), key=len, reverse=True)
+        known += sorted((os.path.join(d0, dn) for d0, dns, _ in os.walk(cwd) for dn in dns), key=len, reverse=True)
         processed = []
         for l in out.decode("utf-8", "replace").split("\n"):
-            m = re.match(r"^(.*): (patched|skipped)$", l)
-            if m:
-                processed.append((m.group(1), m.group(2)))
+            hit = next((k for k in known if k in l), None)
+            if hit:
+                processed.append((hit, l))
         counts = {}
         for d, _, files in os.walk(cwd):
             for fn in files:
